@@ -48,7 +48,7 @@ type c10Op struct {
 func c10RefusedHistories(r *core.Run) {
 	firsts := []string{"/s/t/u", "/s/t", "/s/t/u/w", "/s/t/?u", "/s/{p}/u"}
 	attempts := []string{"/s/t/u", "/s/{x}/{x}", "/s/t/{x}/{x}", "/s/{m: **}/{n: **}/z", "/s/t/u/{y}/{y}", "/s/?t/u", "/s/t"}
-	paths := []string{"/s/t/u", "//s/t/u", "/s/t", "/s//t", "/s/t/u/w", "/s/t/u//w", "/s/t/", "/s/x/u", "/s", "/s/t/u/"}
+	paths := []string{"/s/t/u", "//s/t/u", "/s/t", "/s//t", "/s/t/u/w", "/s/t/u//w", "/s/t/", "/s/x/u", "/s", "/s/t/u/", "//s", "//s/t", "/q", "//q", "/q/r", "//q/r"}
 	type job struct{ ops []c10Op }
 	var jobs [][]c10Op
 	for _, f1 := range firsts {
@@ -68,6 +68,17 @@ func c10RefusedHistories(r *core.Run) {
 					}
 				}
 			}
+		}
+	}
+	// a registration for all methods that is refused for one of them only (the route is taken for POST): what it
+	// had registered for the methods before POST stays registered - in the trees and in the shortcut table alike
+	for _, f1 := range []string{"/s", "/s/t", "/s/t/u", "/s/?t", "/q/?r"} {
+		for _, hdr := range []bool{false, true} {
+			ops := []c10Op{{Kind: "reg", Method: "POST", Route: f1}, {Kind: "reg", Method: "*", Route: f1, Refused: true}}
+			if hdr {
+				ops = append(ops, c10Op{Kind: "headers", Target: 0, Pairs: []string{"X-K", "v"}})
+			}
+			jobs = append(jobs, ops, append(append([]c10Op{}, ops...), c10Op{Kind: "reg", Method: "GET", Route: "/{p}"}))
 		}
 	}
 	r.Bounds["histories_with_a_refused_attempt"] = fmt.Sprintf("%d histories: %d first routes x {GET, all methods} x %d attempts refused below the first segment x {no, optional, dynamic} second route x Headers() afterwards or not; %d probe paths", len(jobs), len(firsts), len(attempts), len(paths))
